@@ -1389,11 +1389,18 @@ def run(ctx: Ctx) -> None:
              inputs_with_block_alone_in_cycle=tot['alone'],
              inputs_with_adjacent_blocks=tot['adjacent'],
              runs_skipped_not_applicable=tot['skipped'])
+    # ParallelDo under every schedule within a deviation bound, on the real
+    # runtime inside the E1 world (vf/c11_world.py)
+    from vf import c11_world
+    st = c11_world.run_part(ctx, seconds=None if thorough else 50)
+    ctx.cov['evaluations'] = ctx.cov.get('evaluations', 0) + st['executions']
+    ctx.cov['distinct_nontrivial'] = ctx.cov.get('distinct_nontrivial', 0) \
+        + len([k for k in ctx.outcomes if '/paralleldo/' in k])
     ctx.assumptions.extend([
-        'passes run on the one-worker, zero-preemption loop-back schedule; '
-        'ParallelDo(pick_first=True) is covered only on that schedule '
-        '(which branch arrives first under other schedules is the business '
-        'of the runtime scheduler checks C07/C12)',
+        'control and for-each passes run on the one-worker, zero-preemption '
+        'loop-back schedule; ParallelDo (ordered and pick_first) is '
+        'additionally run by the real server/worker classes under every '
+        'schedule within the stated deviation bound (part paralleldo-world)',
         'string replace filters are taken as given: acceptance is what '
         'gen_replace_filter(method, model) answers on the reference result',
     ])
@@ -1407,6 +1414,13 @@ def run(ctx: Ctx) -> None:
 
 
 def replay(ctx: Ctx, obj: dict) -> bool:
+    if obj.get('engine') == 'E1':
+        from vf import explore
+        v = explore.replay_item(obj['spec'], obj['choices'],
+                                obj.get('fault'), obj.get('judge', 'c11w'))
+        for sig, what in v:
+            print(f'# {sig}: {what[:500]}')
+        return not v
     if obj['part'] == 'control':
         r = run_control_case(obj['term'], obj['scripts'], obj.get('bound', 3))
     else:
